@@ -41,6 +41,8 @@ type Rec struct {
 	Posdep bool      `json:"posdep,omitempty"` // pair: answer depends on a duplicate table position (R9): no oracle
 	N     int        `json:"n,omitempty"` // tally
 	Tag   string     `json:"tag,omitempty"`
+	Calls  []CallJ   `json:"calls,omitempty"`  // same: calls that must all give one answer
+	Exp    []ResJ    `json:"exp,omitempty"`    // same: the model's prediction per call (optional)
 	Inv    string    `json:"inv,omitempty"`    // tableinv
 	Fam    int       `json:"fam,omitempty"`
 	Ids    []string  `json:"ids,omitempty"`
@@ -48,6 +50,15 @@ type Rec struct {
 	MaxLen int       `json:"maxlen,omitempty"` // cfg
 	LexL   string    `json:"lexL,omitempty"`
 	LexE   string    `json:"lexE,omitempty"`
+}
+
+type CallJ struct {
+	E string   `json:"e"`
+	A []string `json:"a"`
+}
+type ResJ struct {
+	Sat bool `json:"sat"`
+	Err bool `json:"err"`
 }
 
 type Mismatch struct {
@@ -214,6 +225,33 @@ func (r *replayer) checkRec(rec *Rec, rng *rand.Rand) (calls int, nontrivial boo
 			}
 		}
 		nontrivial = len(rec.Ls) > 1
+	case "same":
+		var first *Obs
+		for i, c := range rec.Calls {
+			e := substOther(c.E, rng)
+			a := substAll(c.A, rng)
+			o := obsSatisfies(e, a)
+			calls++
+			if !common(o, e, a) {
+				continue
+			}
+			if i < len(rec.Exp) && len(rec.Amb) == 0 && !rec.Posdep {
+				if o.Err != rec.Exp[i].Err {
+					bad("validity", "Satisfies", e, a, rec.Exp[i], o)
+				} else if o.Sat != rec.Exp[i].Sat {
+					bad("verdict", "Satisfies", e, a, rec.Exp[i], o)
+				}
+				if rec.Exp[i].Sat {
+					nontrivial = true
+				}
+			}
+			if first == nil {
+				oc := o
+				first = &oc
+			} else if o.Err != first.Err || o.Sat != first.Sat {
+				bad("not-interchangeable", "Satisfies", e, a, map[string]interface{}{"sameAs": rec.Calls[0], "sat": first.Sat, "err": first.Err}, o)
+			}
+		}
 	case "pair":
 		o := obsSatisfies(rec.E, []string{rec.B})
 		calls++
